@@ -73,8 +73,9 @@ def gen_case(rng, tier, index):
         if r < 0.22:
             lines.append({"k": rng.choice(ordk)})
         elif r < 0.28 and "lea_sym" in v:
-            lines.append({"k": rng.choice(["lea_sym", "mov_sym"]),
-                          "t": target(False)})
+            lines.append({"k": rng.choice(
+                [k for k in ("lea_sym", "mov_sym", "cmp_sym", "movi_sym")
+                 if k in v]), "t": target(False)})
         elif r < 0.34 and "jmp" in v:
             lines.append({"k": "jmp", "t": target(True)})
         elif r < 0.39 and "jne" in v:
